@@ -278,8 +278,9 @@ func fmtErrorMessageLine(code int, errName string, errMessage string) string {
 }
 
 func calcCursorOffset(text string, col int) int {
+	// the cursor is located inside the (skipped) indents of this line
 	if col < 0 {
-		return col
+		return 0
 	}
 	widthBorders := []int32{
 		126, 159, 687, 710, 711, 727, 733, 879, 1154, 1161,
